@@ -123,9 +123,9 @@ fn hal_op(r: &Rec) -> Vec<Vec<i128>> {
 // ------------------------------------------------------------------------------------------------------------------
 // Part 2, level 1: keyless core operations on given limb data
 // ------------------------------------------------------------------------------------------------------------------
-/// The declared `*_tmp_bytes` of these operations under-estimate what the calls take for many shapes (C12's subject);
-/// the operations are run with this much extra scratch so that the arithmetic can be observed.
-const SLACK: usize = 1 << 17;
+/// Extra scratch beyond the declared `*_tmp_bytes`: none (the size queries were repaired in ff1224e; before that the
+/// declared sizes under-estimated what the calls take and 128 KiB of slack were needed).
+const SLACK: usize = 0;
 
 fn fill_raw(dst: &mut [i64], src: &[i128]) {
     assert_eq!(dst.len(), src.len(), "flat size mismatch");
